@@ -372,7 +372,13 @@ func filterLatest(files []string, n int) []string {
 }
 
 func timestamp(file string) string {
-	return rTimestamp.FindString(file)
+	// The start stamp is the last stamp-like part of the path: the DAG
+	// name (and the directory named after it) may contain one as well.
+	all := rTimestamp.FindAllString(file, -1)
+	if len(all) == 0 {
+		return ""
+	}
+	return all[len(all)-1]
 }
 
 func readLineFrom(f *os.File, offset int64) ([]byte, error) {
